@@ -639,7 +639,7 @@ def policy_oracle(ctx, name, spec, species, stored, wls, null, fb, o, m):
                          % (name, [s.name for s in species], o), m)
         else:
             if o != 'raises:RuntimeError':
-                fail(ctx, 'C07:%s:missing-data:%s' % (name, o.split(':')[1] if ':' in o else o),
+                fail(ctx, 'C07:%s:missing-data:%s' % (name, o.split(':')[1] if o.startswith('raises:') else o.split(':')[0]),
                          '%s(%s) with the element\'s data missing gave %s; the property wants RuntimeError' % (name, [s.name for s in species], o), m)
         return
     # data present for the element(s)
@@ -750,6 +750,10 @@ def numeric_stream(ctx, cat, plan):
             # raysect refuses single-point axes for the N-D array interpolators: no rate object is returned
             ctx.count('ctor-rejects:' + c['name'])
             ctx.case(key=('ctor', c['name'], tuple(c['dims'])))
+            if c['model_tab'] is None:
+                ctx.disagreements += 1
+                _broke(ctx, 'numeric stream ' + c['name'], dict(input=desc, model=po, implementation='constructor raised ValueError'))
+                continue
             t0 = c['model_tab']['metastables'][mts[0]] if shape == 'beamCX' else c['model_tab']
             lines.append(rate_line(spec['cls'], shape, c['ex'], c['model_wl'], t0, [[1.0] * len(ARG_NAMES[shape])]))
             index.append((c, None, None, [('ctor-probe', None, {})], desc))
@@ -898,7 +902,7 @@ def constants_check(ctx):
 def plan_numeric(ctx, cat):
     rng = ctx.rng
     plan = []
-    reps = ctx.n(1, 6)
+    reps = ctx.n(1, 20)
     for name, spec in cat.items():
         shapes = SHAPES[spec['shape']]
         for rep in range(reps):
